@@ -306,21 +306,36 @@ structure CookieItem where
   /-- the separator that follows (`;` or `,`) and the blanks/tabs after it -/
   sep : UInt8 := 59
   ws : Bytes := [32]
+  /-- `none`: the value is sent as a token; `some flags`: as a quoted string, `flags` telling for every byte
+  whether it is written with a backslash in front -/
+  esc : Option (List Bool) := none
 deriving Repr
+
+/-- quoted-string body: every byte, with a backslash in front where the flag says so -/
+def qenc (l : List (UInt8 × Bool)) : Bytes := l.flatMap fun p => if p.2 then [92, p.1] else [p.1]
+
+/-- the value on the wire -/
+def CookieItem.valWire (c : CookieItem) : Bytes :=
+  match c.esc with
+  | none => c.value
+  | some fl => 34 :: (qenc (c.value.zip fl) ++ [34])
 
 structure CookieItem.ok (c : CookieItem) : Prop where
   name_tok : ∀ x ∈ c.name, isTockenChar x = true
   name_ne : c.name ≠ []
   /-- `$Path`, `$Domain`, `$Version` are attributes, not cookies -/
   name_plain : c.name.head? ≠ some 36
-  value_tok : ∀ x ∈ c.value, isTockenChar x = true
+  value_tok : c.esc = none → ∀ x ∈ c.value, isTockenChar x = true
+  /-- in a quoted string `"` and `\` carry a backslash; any other byte may -/
+  value_quoted : ∀ fl, c.esc = some fl → fl.length = c.value.length ∧
+    ∀ p ∈ c.value.zip fl, (p.1 = 34 ∨ p.1 = 92) → p.2 = true
   sep : c.sep = 59 ∨ c.sep = 44
   ws : ∀ x ∈ c.ws, x = 32 ∨ x = 9
 
 def encCookies : List CookieItem → Bytes
   | [] => []
-  | [c] => c.name ++ 61 :: c.value
-  | c :: d :: r => c.name ++ 61 :: (c.value ++ c.sep :: (c.ws ++ encCookies (d :: r)))
+  | [c] => c.name ++ 61 :: c.valWire
+  | c :: d :: r => c.name ++ 61 :: (c.valWire ++ c.sep :: (c.ws ++ encCookies (d :: r)))
 
 theorem encCookies_head (cs : List CookieItem) (h : ∀ c ∈ cs, c.ok) :
     encCookies cs = [] ∨ ∃ c t, encCookies cs = c :: t ∧ NotWs c := by
@@ -341,7 +356,7 @@ theorem sep_not_tocken {c : UInt8} (h : c = 59 ∨ c = 44 ∨ c = 61) : isTocken
   rcases h with rfl | rfl | rfl <;> decide
 
 /-- `read_key_value` on one cookie followed by nothing (`last`) or by the separator, blanks and `next` -/
-theorem readKeyValue_item (c : CookieItem) (hc : c.ok) (next : Bytes)
+theorem readKeyValue_item_token (c : CookieItem) (hc : c.ok) (hesc : c.esc = none) (next : Bytes)
     (hnext : next = [] ∨ ∃ x t, next = x :: t ∧ NotWs x) (last : Bool) :
     readKeyValue (c.name ++ 61 :: (c.value ++ (if last then [] else c.sep :: (c.ws ++ next)))) =
       (true, c.name, c.value, if last then [] else next) := by
@@ -389,7 +404,7 @@ theorem readKeyValue_item (c : CookieItem) (hc : c.ok) (next : Bytes)
       simp only [hsepd, if_true]
       rw [skipWs_blanks c.ws next hc.ws hnext]
   | cons v vs =>
-    have hvt := hc.value_tok
+    have hvt := hc.value_tok hesc
     rw [hv] at hvt
     have hv0 := tockenChar_notWs (hvt v (by simp))
     have hv34 : (v == 34) = false := by
@@ -424,6 +439,103 @@ theorem readKeyValue_item (c : CookieItem) (hc : c.ok) (next : Bytes)
       rw [skipWs_stop c.sep _ hsepnw]
       simp only [hsepd, if_true]
       rw [skipWs_blanks c.ws next hc.ws hnext]
+
+theorem unquoteBody_enc (l : List (UInt8 × Bool)) (h : ∀ p ∈ l, (p.1 = 34 ∨ p.1 = 92) → p.2 = true) (rest : Bytes) :
+    ∀ acc, unquoteBody (qenc l ++ 34 :: rest) acc = some (acc.reverse ++ l.map Prod.fst, rest) := by
+  induction l with
+  | nil => intro acc; simp [qenc, unquoteBody]
+  | cons p t ih =>
+    intro acc
+    have ht := ih (fun q hq => h q (by simp [hq]))
+    obtain ⟨b, e⟩ := p
+    cases e with
+    | true =>
+      simp only [qenc, List.flatMap_cons, if_true, List.cons_append, List.nil_append]
+      have : unquoteBody (92 :: b :: (qenc t ++ 34 :: rest)) acc = unquoteBody (qenc t ++ 34 :: rest) (b :: acc) := by
+        rw [unquoteBody]
+      simp only [qenc] at this ht
+      rw [this, ht]
+      simp
+    | false =>
+      have hb : b ≠ 34 ∧ b ≠ 92 := by
+        constructor <;> (intro e; have := h (b, false) (by simp) (by simp [e]); cases this)
+      simp only [qenc, List.flatMap_cons, Bool.false_eq_true, if_false, List.cons_append, List.nil_append]
+      have : unquoteBody (b :: (qenc t ++ 34 :: rest)) acc = unquoteBody (qenc t ++ 34 :: rest) (b :: acc) := by
+        rw [unquoteBody]
+        · intro e; exact hb.1 e
+        · intro c r e _; exact hb.2 e
+      simp only [qenc] at this ht
+      rw [this, ht]
+      simp
+
+theorem zip_map_fst (v : Bytes) (fl : List Bool) (h : fl.length = v.length) : (v.zip fl).map Prod.fst = v := by
+  induction v generalizing fl with
+  | nil => simp
+  | cons a r ih =>
+    cases fl with
+    | nil => simp at h
+    | cons f t => simp only [List.zip_cons_cons, List.map_cons]; rw [ih t (by simpa using h)]
+
+theorem readKeyValue_item_quoted (c : CookieItem) (hc : c.ok) (fl : List Bool) (hesc : c.esc = some fl) (next : Bytes)
+    (hnext : next = [] ∨ ∃ x t, next = x :: t ∧ NotWs x) (last : Bool) :
+    readKeyValue (c.name ++ 61 :: (c.valWire ++ (if last then [] else c.sep :: (c.ws ++ next)))) =
+      (true, c.name, c.value, if last then [] else next) := by
+  obtain ⟨x, xs, hn⟩ : ∃ x xs, c.name = x :: xs := by
+    cases h : c.name with
+    | nil => exact absurd h hc.name_ne
+    | cons x xs => exact ⟨x, xs, rfl⟩
+  have hx := tockenChar_notWs (hc.name_tok x (by simp [hn]))
+  have hsepnw : NotWs c.sep := by rcases hc.sep with h | h <;> (rw [h]; exact ⟨by decide, by decide, by decide⟩)
+  have hsepd : (c.sep == 59 || c.sep == 44) = true := by rcases hc.sep with h | h <;> (rw [h]; decide)
+  obtain ⟨hlen, hq⟩ := hc.value_quoted fl hesc
+  have hvw : c.valWire = 34 :: (qenc (c.value.zip fl) ++ [34]) := by simp [CookieItem.valWire, hesc]
+  obtain ⟨tl, htl⟩ : ∃ tl, tl = (if last then [] else c.sep :: (c.ws ++ next)) := ⟨_, rfl⟩
+  rw [← htl, hvw]
+  have e1 : skipWs (c.name ++ 61 :: (34 :: (qenc (c.value.zip fl) ++ [34]) ++ tl)) =
+      c.name ++ 61 :: (34 :: (qenc (c.value.zip fl) ++ [34]) ++ tl) := by
+    rw [hn]; exact skipWs_stop x _ hx
+  have e2 : tocken (c.name ++ 61 :: (34 :: (qenc (c.value.zip fl) ++ [34]) ++ tl)) =
+      (c.name, 61 :: (34 :: (qenc (c.value.zip fl) ++ [34]) ++ tl)) :=
+    tocken_app _ _ hc.name_tok (Or.inr ⟨61, _, rfl, by decide⟩)
+  have e3 : skipWs (61 :: (34 :: (qenc (c.value.zip fl) ++ [34]) ++ tl)) = 61 :: (34 :: (qenc (c.value.zip fl) ++ [34]) ++ tl) :=
+    skipWs_stop 61 _ ⟨by decide, by decide, by decide⟩
+  have e5 : skipWs (34 :: (qenc (c.value.zip fl) ++ [34]) ++ tl) = 34 :: (qenc (c.value.zip fl) ++ [34]) ++ tl :=
+    skipWs_stop 34 _ ⟨by decide, by decide, by decide⟩
+  have hne : c.name.isEmpty = false := by rw [hn]; rfl
+  have e4 : ((61 : UInt8) != 61 && ((61 : UInt8) == 59 || (61 : UInt8) == 44)) = false := by decide
+  have e6 : unquote (34 :: (qenc (c.value.zip fl) ++ [34]) ++ tl) = some (c.value, tl) := by
+    have := unquoteBody_enc (c.value.zip fl) hq tl []
+    simp only [List.reverse_nil, List.nil_append, zip_map_fst c.value fl hlen] at this
+    simp only [unquote, List.cons_append, List.append_assoc, List.singleton_append]
+    exact this
+  simp only [readKeyValue, e1, e2, hne, Bool.false_eq_true, Bool.false_and, if_false, e3, e4, e5]
+  simp only [List.cons_append] at e6 ⊢
+  simp only [beq_self_eq_true, if_true, e6]
+  cases last with
+  | true =>
+    simp only [if_true] at htl
+    subst htl
+    simp [skipWs_nil]
+  | false =>
+    simp only [Bool.false_eq_true, if_false] at htl
+    subst htl
+    rw [skipWs_stop c.sep _ hsepnw]
+    simp only [hsepd, if_true]
+    rw [skipWs_blanks c.ws next hc.ws hnext]
+    simp
+
+/-- `read_key_value` on one cookie (token or quoted value) followed by nothing (`last`) or by the separator, blanks
+and `next` -/
+theorem readKeyValue_item (c : CookieItem) (hc : c.ok) (next : Bytes)
+    (hnext : next = [] ∨ ∃ x t, next = x :: t ∧ NotWs x) (last : Bool) :
+    readKeyValue (c.name ++ 61 :: (c.valWire ++ (if last then [] else c.sep :: (c.ws ++ next)))) =
+      (true, c.name, c.value, if last then [] else next) := by
+  cases hesc : c.esc with
+  | none =>
+    have : c.valWire = c.value := by simp [CookieItem.valWire, hesc]
+    rw [this]
+    exact readKeyValue_item_token c hc hesc next hnext last
+  | some fl => exact readKeyValue_item_quoted c hc fl hesc next hnext last
 
 def CookieItem.cookie (c : CookieItem) : Cookie := { name := c.name, value := c.value }
 
